@@ -235,6 +235,7 @@ theorem execOp_guards_of {o : Op} (h : ∀ m, GuardsKept m (execCore o m)) (m : 
   unfold execOp
   split
   · exact h _
+  · exact h _
   · split
     · exact raise_guardsKept _ _ _
     · exact GuardsKept.of_eq (tick_sameG m).ld (tick_sameG m).rd (h _)
@@ -327,6 +328,7 @@ theorem execCore_guards : ∀ (o : Op) (m : M), GuardsKept m (execCore o m)
         exact safeFinish_guardsKept (m3 := m3) (econ := safeCtx nargs econ0) e1 e2
           (g3.1.trans (ge.1.trans g1)) (g3.2.trans (ge.2.trans g2)) (thenTick_guardsKept (exec_guards body m3))
   | .raise msg, m => by simp only [execCore]; exact raise_guardsKept _ _ _
+  | .craise msg, m => by simp only [execCore]; exact raise_guardsKept _ _ _
   | .throw_ v, m => by simp only [execCore]; exact throwVal_guardsKept _ _ _
   | .raiseLimit, m => by simp only [execCore]; exact raise_guardsKept _ _ _
   | .load body, m => by
